@@ -47,6 +47,10 @@ Inductive micro :=
                                           (* result of an op: own = refcounted and not borrowed;
                                              ow = the value a borrowed result is borrowed from (None: static) *)
 | MDefNull (d : val)                      (* LoadErrorValue *)
+| MSlotInit (t : val)                     (* an INITIALIZING attribute store (SetAttr.is_init: the old slot value is
+                                             not released) or a call that will perform one: legal only while the
+                                             token t of that (object, attribute) slot is provably UNSET; consumes it *)
+| MSlotKill (t : val)                     (* the slot may be set from now on (store through any name, object escaped) *)
 | MMove (d s : val) (mv own undef : bool) (* Assign d := s; mv = the reference moves (both refcounted);
                                              undef = s is LoadErrorValue(undefines=True) *).
 
@@ -64,13 +68,15 @@ Inductive opkind := KOther | KAssign | KAssignLit | KAssignMulti | KIncRef | KDe
                   | KLoadAddress | KKeepAlive | KHeapRef | KAssume | KRawRead.
 
 Record op := { okind : opkind; odest : option val; orc : bool; oborrowed : bool; omaynull : bool;
-               oflag : bool; osrcs : list val; ostolen : list val; oowner : option val }.
+               oflag : bool; osrcs : list val; ostolen : list val; oowner : option val;
+               oslot : list val;    (* slot tokens this op needs UNSET (init store / call of an __init__ that init-stores) *)
+               okill : list val }.  (* slot tokens that are possibly set after this op *)
 
 Definition generic (o : op) (bor : bool) : list micro :=
   map MRead (osrcs o) ++ map MRelease (ostolen o) ++
   match odest o with Some d => [MDef d (orc o && negb bor) (omaynull o) (oowner o)] | None => [] end.
 
-Definition compile_op (o : op) : list micro :=
+Definition compile_core (o : op) : list micro :=
   match okind o with
   | KOther | KAssignMulti | KHeapRef => generic o (oborrowed o)
   | KKeepAlive => map MRead (osrcs o) ++ map MForget (ostolen o)
@@ -88,6 +94,10 @@ Definition compile_op (o : op) : list micro :=
   | KDecRef => match osrcs o with s :: _ => [MDec s (oflag o)] | [] => [] end
   | KAssume => match osrcs o with s :: _ => [MAssume s] | [] => [] end
   end.
+
+(* Slot tokens live in the same state as IR values: CNull = the slot is unset, anything else = possibly set. *)
+Definition compile_op (o : op) : list micro :=
+  compile_core o ++ map MSlotInit (oslot o) ++ map MSlotKill (okill o).
 
 (* ---- concrete semantics of one micro action ------------------------------------------------- *)
 Inductive res (A : Type) := Viol | Blocked | Next (a : A).
@@ -141,6 +151,11 @@ Definition cmicro (m : micro) (oc : bool) (s : cstate) : res cstate :=
                          else CObj 0 (match ow with Some w => croot s w | None => BAlways end)) s)
       else Viol                                (* the old reference in d is overwritten: leak *)
   | MDefNull d => if Nat.eqb (owned (s d)) 0 then Next (cset d (CNull false) s) else Viol
+  | MSlotInit t => match s t with
+                   | CNull _ => Next (cset t CUninit s)
+                   | _ => Viol             (* init store to a possibly-set slot: the old value leaks *)
+                   end
+  | MSlotKill t => Next (cset t CUninit s)
   | MMove d sv mv own undef =>
       if readable (s sv) then
         match (if mv then crelease false sv (BFrom d) s else Next s) with
@@ -192,7 +207,8 @@ Definition is_return (t : term) : bool := match t with TReturn _ _ => true | _ =
 
 (* A function: blocks by label (entry = 1), arguments with (refcounted, may be NULL = optional). *)
 From Coq Require Import FMapPositive.
-Record func := { fblocks : PositiveMap.t block; fargs : list (val * bool) }.
+Record func := { fblocks : PositiveMap.t block; fargs : list (val * bool);
+                 ftokens : list val   (* slot tokens that are unset on entry (fresh self of __init__) *) }.
 
 (* program point = the rest of the current block *)
 Record config := Cfg { crest : list micro; cterm_ : term; cst : cstate }.
@@ -223,7 +239,10 @@ Definition arg_ok (opt : bool) (c : cval) : Prop := c = CObj 0 BAlways \/ (opt =
 Fixpoint lookup_arg (l : list (val * bool)) (v : val) : option bool :=
   match l with [] => None | (a, o) :: r => if Pos.eqb v a then Some o else lookup_arg r v end.
 Definition initial_state (f : func) (s : cstate) : Prop :=
-  forall v, match lookup_arg (fargs f) v with Some opt => arg_ok opt (s v) | None => s v = CUninit end.
+  forall v, match lookup_arg (fargs f) v with
+            | Some opt => arg_ok opt (s v)
+            | None => if existsb (Pos.eqb v) (ftokens f) then s v = CNull false else s v = CUninit
+            end.
 
 Definition initial_config (f : func) (c : config) : Prop :=
   exists b, PositiveMap.find 1%positive (fblocks f) = Some b /\ crest c = bops b /\ cterm_ c = bterm b
